@@ -33,6 +33,8 @@ pub const TOKENS: &[&str] = &[
     "a", "abc", "λ", "→", "aλ", "a→", "a.b", "a+b", "a@b", "a1", "x.y.z", "!", "$", "%", "&", "*", "/", "<", "=", ">", "^", "_", "~", "@", "@a", "a@", "<=?", "set!", "a|b", "|a|", "a'b", "a`b", "a,b", "a#b", "a\\b", "\\a", "{", "}", "a{",
     // strings
     "\"s\"", "\"\"", "\"a\\nb\"", "\"\\x41;\"", "\"\\x41\"", "\"\\101\"", "\"\\q\"", "\"λ\"", "\"\\u03bb\"", "\"\\e\"", "\"\\|\"", "\"\\xff\"", "\"\\x3bb\"", "\"a\\ b\"", "\"\\N{U+41}\"", "\"\\^a\"", "\"\\d\\s\"",
+    // Emacs unibyte / multibyte boundary: a byte escape next to raw DEL (ASCII), raw ASCII, a raw non-ASCII character, U+0080
+    "\"\\377\x7f\"", "\"\x7f\\377\"", "\"\\377a\"", "\"a\\377\"", "\"\\377 \"", "\"\\101\x7f\"", "\"é\\x21\"", "\"\\x21é\"", "\"\\377\\u00e9\"", "\"\\x21\u{80}\"", "\"\u{80}\\x21\"", "\"\\x21\\x7f\"",
     // compound tokens as elements
     "()", "(x)", "(x . y)", "[x]", "[x y]", "[x . y]", "[]", "#(x)", "#()", "#u8(1 2)", "#vu8(1)", "#u8()", "#u8(256)", "#u8(a)", "(x]", "[x)", "#(x]", "'x", "`x", ",x", ",@x", "''x", "'(x)", "'[x]", "(quote x)",
 ];
